@@ -286,6 +286,7 @@ class HRun(object):
             self.objs[i], self.originals[i] = make_model(spec, i)
         self.registered = []
         self.all_claims = {}
+        self.deleted = {}       # model index -> names remove_transition deleted from the model (model_override)
         try:
             states = to_dicts(case['tree'], self.sep)
             initial = self.sep.join(case['initial'])
@@ -543,6 +544,8 @@ def check_step(run, last_op, pending):
         for n, cl in want.items():
             if len(run.all_claims[n]) != 1 or n == attr:
                 continue
+            if n in run.deleted.get(i, ()):
+                continue               # model_override: the replacement was deleted together with its event
             kind = sorted(cl)[0][0]
             if kind == 'toFn':
                 expected = n not in user           # `to` is bound with hasattr/setattr, never over a user attribute
@@ -834,6 +837,10 @@ def run_case(case):
         if wreq is not None and r[0] == 'ok':
             names = wrapper_names(wsteps)
             pending.append(('c11wrap', wreq, {'names': names, 'kinds': [attr_kind(run.objs[op[1]], n) for n in names], 'op': op}))
+        if op[0] == 'remove' and case['override'] and r[0] == 'ok' and \
+                op[1] not in all_event_names(scope_tables(run.machine, case['sep'])):
+            for i in run.registered:
+                run.deleted.setdefault(i, set()).add(op[1])
         facts['steps'] += 1
         facts['fired'] += int(r == ('ret', True) or (op[0] == 'to' and r == ('ok',)))
         if r[0] == 'raised' and op[0] in ('model', 'state', 'trans', 'local', 'remove'):
